@@ -2,7 +2,6 @@ package poaante
 
 import (
 	sdk "github.com/cosmos/cosmos-sdk/types"
-	"github.com/cosmos/cosmos-sdk/x/authz"
 	distrtypes "github.com/cosmos/cosmos-sdk/x/distribution/types"
 
 	"github.com/strangelove-ventures/poa"
@@ -32,9 +31,8 @@ func (mdwr MsgDisableWithdrawDelegatorRewards) AnteHandle(ctx sdk.Context, tx sd
 
 func (mdwr MsgDisableWithdrawDelegatorRewards) hasWithdrawDelegatorRewardsMsg(msgs []sdk.Msg) error {
 	for _, msg := range msgs {
-		// authz nested message check (recursive)
-		if execMsg, ok := msg.(*authz.MsgExec); ok {
-			msgs, err := execMsg.GetMessages()
+		// nested message check (recursive): authz MsgExec, gov / group proposals, ...
+		if msgs, ok, err := nestedMsgs(msg); ok {
 			if err != nil {
 				return err
 			}
